@@ -246,9 +246,9 @@ def handle (st : DState) (j : Json) : Except String (DState × Json) := do
     let kd ← NamesDrv.kindOf (← getStr j "kd")
     let k ← NamesDrv.keyOf (← getStr j "k")
     let v ← getStr j "v"
-    pure (st, Json.mkObj [("lookup", NamesDrv.jOptEl (st.n.lookup p kd k v)),
-                          ("scan", NamesDrv.jOptEl (st.n.scan p kd k v)),
-                          ("scanCI", NamesDrv.jOptEl (st.n.scanCI p kd v))])
+    pure (st, Json.mkObj [("lookup", Json.arr ((st.n.lookup p kd k v).map NamesDrv.jEl).toArray),
+                          ("scan", Json.arr ((st.n.scanAll p kd k v).map NamesDrv.jEl).toArray),
+                          ("scanCI", Json.arr ((st.n.scanAllCI p kd v).map NamesDrv.jEl).toArray)])
   | _ => throw s!"unknown cmd {cmd}"
 
 def main : IO Unit := run handle { s := S.init, n := Spydr.Names.N.init, d := D.init }
